@@ -374,7 +374,7 @@ def _counted_loop(ctx, fs):
     return (vid, vname, lo, hi)
 
 
-def _construction_size(ctx, f, key):
+def _construction_size(ctx, f, key, as_node=False):
     """Lin size of a local container constructed as T v(E) / T v(E, value) / T v = other / T v = f(..) with a size summary,
     if nothing can have resized it afterwards; else None"""
     vid = key[1]
@@ -405,6 +405,15 @@ def _construction_size(ctx, f, key):
             for i, a in enumerate(x.call_args()):
                 if i < len(pm) and pm[i] in ("ref", "ptr") and ctx.container_key(a) and ctx.container_key(a)[:2] == key[:2]:
                     return None
+    if as_node:
+        init = decl.c[0].strip_all()
+        while init.k in ("ExprWithCleanups", "MaterializeTemporaryExpr", "CXXBindTemporaryExpr", "CXXFunctionalCastExpr") and len(init.c) == 1:
+            init = init.c[0].strip_all()
+        if init.k in ("CXXConstructExpr", "CXXTemporaryObjectExpr"):
+            args = [a for a in init.c if a.k != "CXXDefaultArgExpr"]
+            if 1 <= len(args) <= 2 and args[0].strip().tc == "int" and "initializer_list" not in (init.type or ""):
+                return args[0]
+        return None
     return _size_of_value(ctx, decl.c[0], 0)
 
 
@@ -836,6 +845,16 @@ def rule_G7(prog, fixture=False):
                     size_cache[key] = _construction_size(ctx, f, key)
                 cs = size_cache[key]
                 if cs is None:
+                    ctx2 = Ctx(prog, f)
+                    wit2 = _refute_concretely(prog, f, ctx2, node, base, idx, size_cache)
+                    if wit2 is not None and _members_constructible(prog, f, ctx2, wit2[0]):
+                        okp, how = _params_attainable(prog, f, ctx2, wit2[0], node)
+                        if okp and not _opaque_rejecting_call(prog, f, node, set(wit2[0])):
+                            res.add(okey, VIOLATED, where, what,
+                                    "for %s every live check and loop condition at this point holds, and the index %s = %s is outside "
+                                    "the container (size %s)%s" % (", ".join("%s = %s" % (_pretty(a), v) for a, v in sorted(wit2[0].items()) if not a.startswith("(")),
+                                                                   idx.text()[:40], wit2[1], wit2[2], how), func=f.name, extra=extra)
+                            continue
                     res.add(okey, UNMODELLED, where, what, "the container's size at this point is not fixed by its construction", func=f.name, extra=extra)
                     continue
                 base_cons += [size - cs, cs - size]
@@ -900,6 +919,19 @@ def rule_G7(prog, fixture=False):
                                          idx.text()[:40], wit[1], "past the end of" if gname == "upper" else "before the start of", wit[2], how),
                         func=f.name, extra=extra)
             else:
+                # second refutation attempt: run the enclosing loops on small instances (covers induction variables the affine
+                # fragment has no bounds for: `for (int i = 0, k = phase; k < arr.size(); ++i, k += n)`)
+                if any(_loop_shape(fs) is None for fs in _enclosing_loops(node)):
+                    ctx2 = Ctx(prog, f)
+                    wit2 = _refute_concretely(prog, f, ctx2, node, base, idx, size_cache)
+                    if wit2 is not None and _members_constructible(prog, f, ctx2, wit2[0]):
+                        okp, how = _params_attainable(prog, f, ctx2, wit2[0], node)
+                        if okp and not _opaque_rejecting_call(prog, f, node, set(wit2[0])):
+                            res.add(okey, VIOLATED, where, what,
+                                    "for %s every live check and loop condition at this point holds, and the index %s = %s is outside "
+                                    "the container (size %s)%s" % (", ".join("%s = %s" % (_pretty(a), v) for a, v in sorted(wit2[0].items()) if not a.startswith("(")),
+                                                                   idx.text()[:40], wit2[1], wit2[2], how), func=f.name, extra=extra)
+                            continue
                 why = "not proved (%s bound)" % gname
                 if incomplete:
                     why += "; not refuted either: %s" % "; ".join(incomplete[:2])
@@ -910,31 +942,44 @@ def rule_G7(prog, fixture=False):
     return res
 
 
-def _pure_passthrough(prog, f):
-    """names of the public functions that are the only callers of the internal f and hand it nothing but their own, distinct
-    parameters without any live check in front of the call (a public wrapper around a template helper), else ''"""
+def _pure_passthrough(prog, f, depth=0, seen=None):
+    """name of a public function from which the internal f is reached with nothing but the caller's own, distinct, never
+    re-assigned parameters as arguments and without any live check in front of the call - directly (a public wrapper around a
+    template helper) or through up to three internal functions that do the same - else ''.  One such route is enough: the values
+    of an instance are then the user's to choose."""
     from .chain import Chain
     from .rules_assume import literal, _is_internal, canon
-    sites = Chain(prog, literal, _is_internal, canon).call_sites(f)
-    if not sites:
+    seen = seen or set()
+    if f.usr in seen or depth > 3:
         return ""
-    names = []
+    seen = seen | {f.usr}
+    sites = Chain(prog, literal, _is_internal, canon).call_sites(f)
     for (caller, cn, args) in sites:
-        if cn is None or _is_internal(caller) or caller.get("lambda") or len(args) != len(f.params):
-            return ""
-        seen = set()
+        if cn is None or caller.get("lambda") or len(args) != len(f.params) or caller.file.endswith("coverage.cc"):
+            continue
+        ids = set()
+        ok = True
         for a in args:
             a0 = a.strip_all()
             while a0.k in ("CXXConstructExpr", "MaterializeTemporaryExpr") and len(a0.c) == 1:
                 a0 = a0.c[0].strip_all()
-            if not (a0.k == "DeclRefExpr" and a0.decl and a0.decl.get("k") == "parm") or a0.decl["id"] in seen:
-                return ""
-            seen.add(a0.decl["id"])
+            if not (a0.k == "DeclRefExpr" and a0.decl and a0.decl.get("k") == "parm") or a0.is_lambda_parm() or a0.decl["id"] in ids:
+                ok = False
+                break
+            ids.add(a0.decl["id"])
+        if not ok:
+            continue
         caller.blocks
+        if any(("id", i) in {k for (_, _, k) in caller._writes()} for i in ids):
+            continue
         if any(not fact.belief for fact in caller.facts_at(cn)):
-            return ""
-        names.append(caller.short)
-    return ", ".join(sorted(set(names))[:2])
+            continue
+        if not _is_internal(caller):
+            return caller.short
+        up = _pure_passthrough(prog, caller, depth + 1, seen)
+        if up:
+            return "%s (through %s)" % (up, caller.short)
+    return ""
 
 
 def _params_attainable(prog, f, ctx, env, node):
@@ -1186,6 +1231,22 @@ def _is_finished_counted_loop(ctx, cond):
     return ok
 
 
+def _independent_predicate(ctx, fact, env):
+    """the check is ispow2(p) / isprime(p) (or its negation) on one of the function's own, never re-assigned integer parameters
+    that no other quantity of the instance depends on: both outcomes are attainable whatever the instance says"""
+    c = fact.cond.strip_all()
+    while c.k == "UnaryOperator" and c.op == "!" and c.c:
+        c = c.c[0].strip_all()
+    if not (c.k == "CallExpr" and c.callee and c.callee.get("qn") in ("dsplib::ispow2", "dsplib::isprime") and len(c.call_args()) == 1):
+        return False
+    a = c.call_args()[0].strip_all()
+    if not (a.k == "DeclRefExpr" and a.decl and a.decl.get("k") == "parm") or a.is_lambda_parm():
+        return False
+    if ("id", a.decl["id"]) in ctx._written_ids():
+        return False
+    return ("p:%s" % a.decl["n"]) not in env
+
+
 def _witness(ctx, cons, goal, e, size, relevant, nonlinear=()):
     """small integer values of the base atoms under which all constraints hold and the goal fails"""
     base = sorted(a for a in relevant if a not in ctx.divs)
@@ -1232,6 +1293,8 @@ def _witness(ctx, cons, goal, e, size, relevant, nonlinear=()):
                 r = _eval_cond(ctx, fact.cond, env)
                 if r is None and not fact.pol and _is_finished_counted_loop(ctx, fact.cond):
                     continue            # "the counted loop in front has run to its end": true of every instance
+                if r is None and _independent_predicate(ctx, fact, env):
+                    continue            # ispow2(nfft) on a parameter the instance does not speak about: some value passes it
                 if r is None or bool(r) != bool(fact.pol):
                     good = False        # the instance does not pass this check, or the check cannot be evaluated
                     break
@@ -1268,6 +1331,46 @@ def _loop_shape(fs):
     if not (l0.k == "DeclRefExpr" and l0.decl and l0.decl.get("id") == vid) or op not in ("<", "<="):
         return None
     return (vid, vname, vds[0].c[0], op, r)
+
+
+def _multi_loop_shape(fs):
+    """for (int i = 0, k = phase; <cond>; ++i, k += n): several induction variables declared in the init statement, each advanced
+    by one update in the increment and written nowhere in the body.  -> {"vars": [(id, name, init)], "cond": node,
+    "steps": [(id, sign, step node or None)]} or None"""
+    init, cond, inc, body = fs.role("init"), fs.role("cond"), fs.role("inc"), fs.role("body")
+    if init is None or cond is None or inc is None:
+        return None
+    vds = [x for x in init.walk() if x.k == "VarDecl"]
+    if not vds or any(not v.c or not v.decl or v.decl.get("k") != "local" or v.tc not in ("int",) for v in vds):
+        return None
+    ids = {v.decl["id"] for v in vds}
+
+    def var_of(e):
+        e = e.strip_all()
+        return e.decl["id"] if e.k == "DeclRefExpr" and e.decl and e.decl.get("id") in ids else None
+    steps = []
+    parts = []
+    stack = [inc]
+    while stack:
+        e = stack.pop().strip_all()
+        if e.k == "BinaryOperator" and e.op == "," and len(e.c) == 2:
+            stack += [e.c[1], e.c[0]]
+        else:
+            parts.append(e)
+    for e in parts:
+        if e.k == "UnaryOperator" and e.op in ("++", "--") and e.c and var_of(e.c[0]) is not None:
+            steps.append((var_of(e.c[0]), 1 if e.op == "++" else -1, None))
+        elif e.k == "CompoundAssignOperator" and e.op in ("+=", "-=") and len(e.c) == 2 and var_of(e.c[0]) is not None:
+            steps.append((var_of(e.c[0]), 1 if e.op == "+=" else -1, e.c[1]))
+        else:
+            return None
+    if sorted(s_[0] for s_ in steps) != sorted(ids):
+        return None
+    for x in (body.walk() if body is not None else []):
+        if x.k in ("BinaryOperator", "CompoundAssignOperator", "UnaryOperator") and x.op and (x.op.endswith("=") or x.op in ("++", "--")) \
+                and x.op not in ("==", "!=", "<=", ">=") and x.c and var_of(x.c[0]) is not None:
+            return None
+    return {"vars": [(v.decl["id"], v.decl["n"], v.c[0]) for v in vds], "cond": cond, "steps": steps}
 
 
 def _free_atoms(ctx, nodes):
@@ -1324,18 +1427,33 @@ def _refute_concretely(prog, f, ctx, node, base, idx, size_cache):
     for fs in reversed(_enclosing_loops(node)):
         sh = _loop_shape(fs)
         if sh is None:
-            return None          # an enclosing loop that is not counted: its variable cannot be enumerated
+            sh = _multi_loop_shape(fs)
+            if sh is None:
+                return None          # an enclosing loop that is not counted: its variable cannot be enumerated
+            loops.append(sh)
+            for (vid, vname, _) in sh["vars"]:
+                ctx.loopvars[vid] = ("i:%s#%d" % (vname, vid), None, None)
+            continue
         loops.append(sh)
         ctx.loopvars[sh[0]] = ("i:%s#%d" % (sh[1], sh[0]), None, None)
     facts = [fa for fa in f.facts_at(node) if not fa.belief]
-    exprs = [idx] + [fa.cond for fa in facts] + [x for sh in loops for x in (sh[2], sh[4])]
+    exprs = [idx] + [fa.cond for fa in facts]
+    size_node = None
+    for sh in loops:
+        if isinstance(sh, dict):
+            exprs += [v[2] for v in sh["vars"]] + [sh["cond"]] + [st[2] for st in sh["steps"] if st[2] is not None]
+        else:
+            exprs += [sh[2], sh[4]]
     size_expr = None
     if key[3] == "local":
         if key not in size_cache:
             size_cache[key] = _construction_size(ctx, f, key)
         size_expr = size_cache[key]
         if size_expr is None:
-            return None
+            # T r(arr.size() * n): not a linear form, but a plain integer expression that an instance can evaluate
+            size_node = _construction_size(ctx, f, key, as_node=True)
+            if size_node is None:
+                return None
     elif key[3] == "field":
         # the size of a member is object state: only a constructor-established invariant makes it a known quantity
         if not f.cls or f.kind in ("ctor", "copy_ctor", "move_ctor", "dtor"):
@@ -1343,7 +1461,7 @@ def _refute_concretely(prog, f, ctx, node, base, idx, size_cache):
         size_expr = class_size_invariants(prog, f.cls).get(key[1])
         if size_expr is None:
             return None
-    free = _free_atoms(ctx, exprs)
+    free = _free_atoms(ctx, exprs + ([size_node] if size_node is not None else []))
     if free is None:
         return None
     if size_expr is not None:
@@ -1370,10 +1488,19 @@ def _refute_concretely(prog, f, ctx, node, base, idx, size_cache):
                 return None
             v += k * env[a]
         return v
-    for vals in itertools.product(range(0, 7), repeat=len(free)):
+    # sizes and member values 0..6; plain integer parameters also -2, -1 (a negative phase / offset / count is an argument of the
+    # declared type like any other)
+    ranges = [([-1, -2] + list(range(0, 6)) if a.startswith("p:") else list(range(0, 7))) for a in free]
+    ranges = [sorted(r, key=lambda v: (abs(v), v < 0)) for r in ranges]
+    for vals in itertools.product(*ranges):
         env = dict(zip(free, vals))
         if size_expr is not None:
             sz = lin_val(size_expr, env)
+            if sz is None or sz < 0:
+                continue
+            env[satom] = sz
+        elif size_node is not None:
+            sz = _eval_cond(ctx, size_node, env)
             if sz is None or sz < 0:
                 continue
             env[satom] = sz
@@ -1396,6 +1523,37 @@ def _refute_concretely(prog, f, ctx, node, base, idx, size_cache):
                     return None
                 if iv < 0 or iv >= size:
                     return (dict(env), iv, size)
+                return None
+            if isinstance(loops[k], dict):
+                sh = loops[k]
+                cur = {}
+                for (vid, vname, init) in sh["vars"]:
+                    v0 = _eval_cond(ctx, init, env)
+                    if v0 is None:
+                        return None
+                    cur[vid] = int(v0)
+                for _ in range(12):
+                    for vid, v in cur.items():
+                        env[ctx.loopvars[vid][0]] = v
+                    c = _eval_cond(ctx, sh["cond"], env)
+                    if c is None:
+                        break
+                    if not c:
+                        break
+                    r = rec(k + 1)
+                    if r is not None:
+                        return r
+                    stop = False
+                    for (vid, sign, stepn) in sh["steps"]:
+                        st = 1 if stepn is None else _eval_cond(ctx, stepn, env)
+                        if st is None:
+                            stop = True
+                            break
+                        cur[vid] += sign * int(st)
+                    if stop:
+                        break
+                for vid in cur:
+                    env.pop(ctx.loopvars[vid][0], None)
                 return None
             vid, vname, init, op, bound = loops[k]
             lo, hi = _eval_cond(ctx, init, env), _eval_cond(ctx, bound, env)
